@@ -608,7 +608,14 @@ class C20(Check):
         after = fp.tell() if isfile else None
         got = '%s %s %d' % (res[0], opt(res[1]) if res[0] == 'OK' else res[1], after if isfile else 0)
         line = 'xml %d %d %d %s' % (form == 'BytesIO', incl, pos if isfile else 0, enc(d))
-        return {'lines': [line], 'impl': [got], 'res': res, 'after': after, 'isfile': isfile}
+        lines, impls = [line], [got]
+        if form == 'str':
+            # the strict XML 1.0 reader of the Lean side against the independent strict parser of the oracle
+            # (spec against spec: both are typed by hand from the recommendation)
+            sd = S.parse_xmldecl(d)
+            lines.append('strict ' + enc(d))
+            impls.append('WF %s %d' % (opt(sd[1]), sd[2]) if sd[0] == 'wf' else 'NODECL')
+        return {'lines': lines, 'impl': impls, 'res': res, 'after': after, 'isfile': isfile}
 
     def plan_metascan(self, E, w):
         p = E._MetaHTMLParser()
@@ -686,7 +693,7 @@ class C20(Check):
             for ln, g, m in zip(pl['lines'], pl['impl'], model):
                 if call == 'getEncodingInfo' and m == 'ERR Extractor' and pl['meta_raw'][0] == 'raises':
                     m = 'ERR ' + pl['meta_raw'][1]      # the model only says "the parser stage raised"
-                if call == 'detectXMLEncoding' and not pl['isfile']:
+                if call == 'detectXMLEncoding' and not pl['isfile'] and ln.startswith('xml '):
                     m = m.rsplit(' ', 1)[0] + ' 0'      # a str/bytes document has no position to compare
                 if g != m:
                     ctx.disagree(call, w, g, m)
